@@ -76,6 +76,13 @@ class C18:
             frm = queues[p][cursors[ai][p]]
             cursors[ai][p] += 1
             pending[ai] -= 1
+            if rng.random() < 0.08:
+                # one producer hands over garbage: the push raises, the
+                # caller carries on
+                b.emit('acc_push_bad', {'acc': accs[ai],
+                                        'what': rng.choice(['str', 'none',
+                                                            'obj'])},
+                       tags={'k': 'push-bad', 'bad': True})
             b.emit('acc_push', {'acc': accs[ai], 'frm': frm},
                    tags={'k': 'push', 'producer': p})
             if rng.random() < 0.35:
